@@ -10,6 +10,7 @@ import CTV.Sha256
          SHA-256 here, the stripped TBSCertificate from the harness' own extension removal)
         => ok <version> <logid> <ts> <ext> <hash> <alg> <sig> | rsperr <status> | err | panic
   get <status> <jsonok>                                   => ok | rsperr <status>
+  nores <method>                                          => err     (no response was received)
   roots <status> <jsonok> <n> {<b64ok>}*                  => ok | rsperr <status>
   ents <start> <end> <status> <jsonok> <n> {<leaf> <extra> <fatal>}*  => ok <n> {<entry>}* | rsperr <status> | err
   rle <leaf> <extra>                                      => ok <entry> | err
@@ -152,6 +153,7 @@ where go : List String → String
               (addChain (prims pb) (if vf then some key else none) keyID leaf rsps)
         | _ => "bad-op"
     | _, _, _, _, _ => "bad-op"
+  | ["nores", _] => "err"      -- the transport failed: no response, hence a bare error (jsonclient returns the transport's error)
   | ["get", st, jok] =>
     match parseNat? st, parseBool? jok with
     | some st, some jok => showRes (fun (_ : Unit) => "") (plainGet ⟨st, [], if jok then some () else none⟩)
